@@ -174,6 +174,9 @@ def py_shape(text):
             for m in TOKEN_RE.finditer(text) if m.lastgroup != 'ws']
 
 
+STMT_HEAD_RE = re.compile(r'\s*(match|optional|call|with|create|merge|unwind|return)\b', re.I)
+
+
 def value_only_in_literals(text, mk, v, depth=0):
     """the stored value v (recognised by its marker mk) occurs in `text` only inside string literals, and each of
     those literals - read the way the lexer reads it - contains v verbatim, or is itself a statement (a nested
@@ -189,9 +192,14 @@ def value_only_in_literals(text, mk, v, depth=0):
     for a, b, u in lits:
         if mk not in text[a:b]:
             continue
+        if STMT_HEAD_RE.match(u):
+            # the literal is itself a statement (run by a procedure after one un-escaping): the value has to be
+            # safe inside THAT statement, and the statement well-formed on its own (it gets no parameters)
+            if depth < 3 and value_only_in_literals(u, mk, v, depth + 1) is None and py_wf(u, []) is None:
+                continue
+            return 'inside a literal that is itself a statement, where it is not safely quoted (%s)' % (
+                py_wf(u, []) or 'the inner literal does not read back the value')
         if v in u:
-            continue
-        if depth < 3 and value_only_in_literals(u, mk, v, depth + 1) is None and py_literals(u):
             continue
         return 'inside a string literal but not escaped so that the literal reads back the value'
     return None
@@ -200,7 +208,10 @@ def value_only_in_literals(text, mk, v, depth=0):
 def arrives_in_literal(text, v, depth=0):
     """v is read back verbatim from some string literal of the statement (or of a statement nested in one)"""
     for _, _, u in py_literals(text):
-        if v in u or (depth < 3 and arrives_in_literal(u, v, depth + 1)):
+        if STMT_HEAD_RE.match(u):
+            if depth < 3 and arrives_in_literal(u, v, depth + 1):
+                return True
+        elif v in u:
             return True
     return False
 
@@ -1266,7 +1277,9 @@ class C19(Check):
         return out
 
     def refuted_witnesses(self):
-        return WITNESSES
+        # table-driven: only the witnesses of findings that are still registered are replayed
+        names = {k.get('witness') for k in known_for(PID)}
+        return [w for w in WITNESSES if w[0] in names]
 
 
 if __name__ == '__main__':
